@@ -388,9 +388,9 @@ def ref_pvalues(test, b, par=None):
       if z == 0:
         return None
       s1 = sum(Phi((4 * k + 1) * z / math.sqrt(n)) - Phi((4 * k - 1) * z / math.sqrt(n))
-               for k in range(math.floor((-n / z + 1) / 4), math.floor((n / z - 1) / 4) + 1))
+               for k in range(math.ceil((-n / z + 1) / 4), math.floor((n / z - 1) / 4) + 1))   # k = (-n/z+1)/4 .. (n/z-1)/4: integers in the interval
       s2 = sum(Phi((4 * k + 3) * z / math.sqrt(n)) - Phi((4 * k + 1) * z / math.sqrt(n))
-               for k in range(math.floor((-n / z - 3) / 4), math.floor((n / z - 1) / 4) + 1))
+               for k in range(math.ceil((-n / z - 3) / 4), math.floor((n / z - 1) / 4) + 1))
       return 1 - s1 + s2
     S = [0]
     for v in b:
@@ -488,6 +488,14 @@ def in_domain(test, b):
   return n >= 100 if test in ('Frequency', 'BlockFrequency', 'RandomWalk') else True
 
 
+def formula_domain(test, b):
+  """Where the formula clause applies: the cumulative-sums expression of SP 800-22 2.13.4 is a closed form for every n (its worked example
+  has n = 10); it is only the RANGE clause that needs n >= 100 (the expression is an approximation and exceeds 1 on short strings)."""
+  if test == 'RandomWalk':
+    return len(b) >= 2
+  return in_domain(test, b)
+
+
 def stat_record(ns, sid, test, b, par=0, with_ref=True):
   n = len(b)
   v = val(b)
@@ -514,7 +522,7 @@ def stat_record(ns, sid, test, b, par=0, with_ref=True):
         st = {'sizes': [len(b[i::par]) for i in range(par)]}
     if test == 'Universal' and n >= 387840:
       st = {'refL': max(L for L, mn in UNIVERSAL_MIN_N.items() if n >= mn)}      # the ladder the reference used (checked against NistStats.tla)
-    if with_ref and test in TESTS_WITH_REF and in_domain(test, b) and not nan and not (test in ('Serial', 'ApproximateEntropy') and n > 12000):
+    if with_ref and test in TESTS_WITH_REF and formula_domain(test, b) and not nan and not (test in ('Serial', 'ApproximateEntropy') and n > 12000):
       mm = par
       if test == 'Serial' and not par:
         mm = max(2, min(22, n.bit_length() - 4))
@@ -793,7 +801,7 @@ def run(ctx):
     for v in range(1 << n):
       b = bits_of(v, n)
       for t in ('Frequency', 'Runs', 'RandomWalk'):
-        jobs.append(('stat', ('e-%s-%d-%d' % (t, n, v), t, b, 0, False)))
+        jobs.append(('stat', ('e-%s-%d-%d' % (t, n, v), t, b, 0, t == 'RandomWalk')))
   # (2) ladder grid: n on both sides of every threshold, several string classes
   grid = [99, 100, 101, 127, 128, 129, 1599, 1600, 3199, 3200, 6271, 6272, 31, 32, 33, 511, 512, 2047, 2048, 4095, 4096, 10000, 38911, 38912,
           65535, 65536, 2 ** 16 + 1]
@@ -818,7 +826,7 @@ def run(ctx):
       for t in tests_all:
         par = 0
         if t == 'LinearComplexity':
-          for bs in (9, 10, 512):
+          for bs in (9, 10, 11, 13, 16, 17, 101, 512):        # every residue of the block size modulo 4 (median and class boundaries)
             jobs.append(('stat', ('g-%s%d-%d-%s' % (t, bs, n, cname), t, b, bs, n <= 70000)))
           continue
         if t in ('Spectral',) and n > 70000 and ctx.quick:
